@@ -8,6 +8,7 @@ import (
 	"go/ast"
 	"go/token"
 	"go/types"
+	"math/big"
 	"strings"
 )
 
@@ -38,10 +39,14 @@ func (v *Verifier) evalCall(fr *Frame, st *State, x *ast.CallExpr) Val {
 			cond := v.asBool(v.evalSpec(fr, st, x.Args[0]), x.Pos())
 			a := v.evalSpec(fr, st, x.Args[1])
 			b := v.evalSpec(fr, st, x.Args[2])
-			if _, ok := a.(UntypedConst); ok {
+			_, au := a.(UntypedConst)
+			_, bu := b.(UntypedConst)
+			switch {
+			case au && bu:
+				a, b = v.asScalar(a, x.Pos()), v.asScalar(b, x.Pos())
+			case au:
 				a = v.coerce(a, typeOfVal(b))
-			}
-			if _, ok := b.(UntypedConst); ok {
+			case bu:
 				b = v.coerce(b, typeOfVal(a))
 			}
 			r, ok := v.eng.iteValScalarAware(cond, a, b)
@@ -211,6 +216,16 @@ func (v *Verifier) evalQuant(fr *Frame, st *State, x *ast.CallExpr, forall bool)
 }
 
 func (v *Verifier) ghostApp(fr *Frame, st *State, f GhostFn, x *ast.CallExpr) Val {
+	if strings.HasSuffix(f.Name, ".ufAESLabel") {
+		// the AES block function on labels: the same symbol as the model of cipher.Block.Encrypt
+		c := v.eng.C
+		alg := v.eval(fr, st, x.Args[0]).(OpaqueVal)
+		l := v.eval(fr, st, x.Args[1]).(StructVal)
+		in := c.Concat(l.F[0].(Scalar).T, l.F[1].(Scalar).T)
+		out := c.App("ufAES", BVSort(128), alg.ID, in)
+		u64 := types.Typ[types.Uint64]
+		return StructVal{Sh: l.Sh, F: []Val{Scalar{c.Extract(127, 64, out), u64}, Scalar{c.Extract(63, 0, out), u64}}}
+	}
 	var ts []*Term
 	for i, a := range x.Args {
 		av := v.assignable(fr, st, v.eval(fr, st, a), f.Sig.Params().At(i).Type(), a.Pos())
@@ -885,8 +900,30 @@ func (v *Verifier) havocModifies(cf *Frame, st *State, pre *State, con *Contract
 			byRef[t.Ref] = append(byRef[t.Ref], t)
 		}
 		for _, ref := range refs {
-			nr := c.Fresh("hvrow", ArraySort(v.eng.IdxSort(), d.Sort))
 			oldRow := c.Select(newH, ref)
+			// small constant ranges: quantifier-free havoc by explicit stores
+			small := true
+			total := int64(0)
+			for _, t := range byRef[ref] {
+				n, ok := constDiff(t.Lo, t.Hi)
+				if !ok || n > 64 {
+					small = false
+					break
+				}
+				total += n
+			}
+			if small && total <= 128 {
+				row := oldRow
+				for _, t := range byRef[ref] {
+					n, _ := constDiff(t.Lo, t.Hi)
+					for i := int64(0); i < n; i++ {
+						row = c.Store(row, v.iAdd(t.Lo, v.idxConst(i)), c.Fresh("hv", d.Sort))
+					}
+				}
+				newH = c.Store(newH, ref, row)
+				continue
+			}
+			nr := c.Fresh("hvrow", ArraySort(v.eng.IdxSort(), d.Sort))
 			j := c.Bound("j", v.eng.IdxSort())
 			var covered []*Term
 			for _, t := range byRef[ref] {
@@ -939,4 +976,26 @@ func locName(l Loc) string {
 		return locName(x.Base) + "[]"
 	}
 	return "heap"
+}
+
+// constDiff returns hi-lo when it is a syntactic constant.
+func constDiff(lo, hi *Term) (int64, bool) {
+	if lo.IsConst() && hi.IsConst() {
+		d := new(big.Int).Sub(hi.Val, lo.Val)
+		if d.IsInt64() && d.Sign() >= 0 {
+			return d.Int64(), true
+		}
+		return 0, false
+	}
+	// hi == lo + c
+	if (hi.Op == "bvadd" || hi.Op == "+") && hi.Args[0] == lo && hi.Args[1].IsConst() && hi.Args[1].Val.IsInt64() {
+		return hi.Args[1].Val.Int64(), true
+	}
+	if (hi.Op == "bvadd" || hi.Op == "+") && (lo.Op == hi.Op) && hi.Args[0] == lo.Args[0] && hi.Args[1].IsConst() && lo.Args[1].IsConst() {
+		d := new(big.Int).Sub(hi.Args[1].Val, lo.Args[1].Val)
+		if d.IsInt64() && d.Sign() >= 0 {
+			return d.Int64(), true
+		}
+	}
+	return 0, false
 }
